@@ -8,7 +8,7 @@ use kvh::{catch, Ctx};
 use proptest::prelude::*;
 use serde::{Deserialize, Serialize};
 use serde_json::json;
-use std::cell::RefCell;
+use std::cell::{Cell, RefCell};
 use std::collections::HashMap;
 use std::mem::ManuallyDrop;
 
@@ -186,6 +186,9 @@ enum Case {
     /// holds `dst` elements, the source `src`; contents afterwards equal the source's, every element of the old
     /// destination is dropped exactly once
     CloneFrom { n: usize, dst: usize, src: usize, consumer: bool },
+    /// element types whose alignment exceeds a machine word (u128, a 32-byte-aligned struct with a destructor): builder
+    /// filled to `pushed`, as_slice after every push, build / early drop, consumer taken from both ends, map_!/from_fn_!
+    Aligned { n: usize, pushed: usize },
 }
 
 macro_rules! ensure {
@@ -571,6 +574,79 @@ fn zst_run<const N: usize>(front: usize, back: usize, clones: usize, pushed: usi
     Ok(true)
 }
 
+thread_local! { static WIDE_LIVE: Cell<i64> = const { Cell::new(0) }; }
+/// 32-byte aligned, with a destructor that counts and checks a stamp
+#[derive(Debug)]
+#[repr(align(32))]
+struct Wide {
+    stamp: u64,
+    v: u64,
+}
+impl Wide {
+    fn new(v: u64) -> Wide {
+        WIDE_LIVE.with(|c| c.set(c.get() + 1));
+        Wide { stamp: MAGIC, v }
+    }
+}
+impl Drop for Wide {
+    fn drop(&mut self) {
+        if self.stamp != MAGIC {
+            ledger_err(format!("BOTH: over-aligned element dropped without the magic stamp: {:#x}", self.stamp));
+        }
+        self.stamp = 0xDEAD;
+        WIDE_LIVE.with(|c| c.set(c.get() - 1));
+    }
+}
+
+fn aligned_run<const N: usize>(pushed: usize) -> Result<bool, String> {
+    let pushed = pushed.min(N);
+    WIDE_LIVE.with(|c| c.set(0));
+    // u128 (alignment 16 on this target)
+    let mut b = ArrayBuilder::<u128, N>::new();
+    for i in 0..pushed {
+        b.push((i as u128 + 1) << 100 | 7);
+        let want: Vec<u128> = (0..=i).map(|j| (j as u128 + 1) << 100 | 7).collect();
+        ensure!(b.as_slice() == &want[..] && b.len() == i + 1, "BOTH: ArrayBuilder<u128,{N}> after {} pushes: as_slice {:?}", i + 1, b.as_slice());
+    }
+    if pushed == N {
+        let arr = b.build();
+        let want: [u128; N] = core::array::from_fn(|j| (j as u128 + 1) << 100 | 7);
+        ensure!(arr == want, "BOTH: ArrayBuilder<u128,{N}>::build {arr:?}, pushed {want:?}");
+        let m = array::map_!(arr, |x| x ^ 1);
+        ensure!(m == want.map(|x| x ^ 1), "BOTH: map_! over [u128; {N}]: {m:?}");
+        let f: [u128; N] = array::from_fn_!(|i| (i as u128) << 90);
+        ensure!(f == core::array::from_fn(|i| (i as u128) << 90), "BOTH: from_fn_! for [u128; {N}]: {f:?}");
+    }
+    // a 32-byte aligned Drop type
+    let mut b = ArrayBuilder::<Wide, N>::new();
+    for i in 0..pushed {
+        b.push(Wide::new(i as u64 * 3 + 1));
+        ensure!(b.as_slice().iter().enumerate().all(|(j, w)| w.stamp == MAGIC && w.v == j as u64 * 3 + 1 && (w as *const Wide as usize) % 32 == 0), "BOTH: ArrayBuilder<Wide,{N}> after {} pushes: {:?}", i + 1, b.as_slice());
+    }
+    if pushed == N {
+        let arr = b.build();
+        ensure!(arr.iter().enumerate().all(|(j, w)| w.stamp == MAGIC && w.v == j as u64 * 3 + 1), "BOTH: ArrayBuilder<Wide,{N}>::build returned {arr:?}");
+        let mut c = ArrayConsumer::new(arr);
+        let mut lo = 0u64;
+        let mut hi = N as u64;
+        let mut turn = false;
+        while let Some(w) = if turn { c.next_back() } else { c.next() } {
+            let w = core::mem::ManuallyDrop::into_inner(w);
+            let want = if turn { hi -= 1; hi } else { lo += 1; lo - 1 };
+            ensure!(w.stamp == MAGIC && w.v == want * 3 + 1, "BOTH: ArrayConsumer<Wide,{N}> yielded {w:?}, expected element {want}");
+            turn = !turn;
+        }
+        drop(c);
+        let m = array::map_!(core::array::from_fn::<Wide, N, _>(|i| Wide::new(i as u64)), |w| Wide::new(w.v + 100));
+        ensure!(m.iter().enumerate().all(|(j, w)| w.stamp == MAGIC && w.v == j as u64 + 100), "BOTH: map_! over [Wide; {N}]: {m:?}");
+    } else {
+        drop(b);
+    }
+    let live = WIDE_LIVE.with(|c| c.get());
+    ensure!(live == 0, "BOTH: over-aligned elements: {live} value(s) created but not dropped (negative: dropped twice)");
+    Ok(true)
+}
+
 fn clone_from_run<const N: usize>(dst_len: usize, src_len: usize, consumer: bool) -> Result<bool, String> {
     if consumer {
         // a consumer with `len` elements left (the others taken from the front and dropped)
@@ -621,6 +697,7 @@ fn run_case(c: &Case) -> (Result<bool, String>, Vec<String>) {
         Case::Values { n, kind } => with_n!(*n, values, *kind),
         Case::Zst { n, front, back, clones, pushed } => with_n!(*n, zst_run, *front, *back, *clones, *pushed),
         Case::CloneFrom { n, dst, src, consumer } => with_n!(*n, clone_from_run, *dst, *src, *consumer),
+        Case::Aligned { n, pushed } => with_n!(*n, aligned_run, *pushed),
         Case::ValuesBig { which } => match which {
             0 => values_big::<16>(),
             1 => values_big::<17>(),
@@ -643,7 +720,8 @@ fn verdict(c11: bool, c: &Case) -> Result<(), String> {
         all.push(e);
     }
     all.extend(ledger);
-    let mine: Vec<&String> = all.iter().filter(|e| all_props || if c11 { e.starts_with("VAL:") } else { e.starts_with("OWN:") }).collect();
+    // ("BOTH:" - a value that arrives changed is a wrong array for C11 and a not-unchanged element for C15)
+    let mine: Vec<&String> = all.iter().filter(|e| all_props || e.starts_with("BOTH:") || if c11 { e.starts_with("VAL:") } else { e.starts_with("OWN:") }).collect();
     // an unexpected failure of the other property's oracle is still reported under the property it
     // belongs to by the other check; here it is ignored
     match mine.first() {
@@ -682,6 +760,7 @@ fn eval(ctx: &mut Ctx, c11: bool, c: Case) {
             Case::Zst { n, front, back, .. } => front + back < *n,
             Case::ValuesBig { .. } => true,
             Case::CloneFrom { dst, src, .. } => dst != src,
+            Case::Aligned { n, .. } => *n >= 1,
         };
         if nt {
             let cls = match &c {
@@ -693,6 +772,7 @@ fn eval(ctx: &mut Ctx, c11: bool, c: Case) {
                 Case::Zst { .. } => "zst_drop",
                 Case::ValuesBig { .. } => "values_big",
                 Case::CloneFrom { .. } => "clone_from",
+                Case::Aligned { .. } => "over_aligned",
             };
             ctx.nontrivial(cls, &c, || json!(c));
         }
@@ -741,6 +821,12 @@ fn explore(ctx: &mut Ctx, c11: bool, miri: bool) {
             }
         }
     }
+    for n in 0..=maxn {
+        for pushed in 0..=n {
+            eval(ctx, c11, Case::Aligned { n, pushed });
+        }
+    }
+    ctx.exhaustive_part("over-aligned element types (u128; a 32-byte aligned Drop struct): N in 0..=6 x builder fill level; as_slice after every push, build, consumer from both ends, map_!/from_fn_!, live-value count");
     ctx.exhaustive_part("Clone::clone_from on ArrayBuilder and ArrayConsumer: N in 0..=6 x destination fill level x source fill level");
     ctx.exhaustive_part("zero-sized Drop tokens: N in 0..=6 x front/back takes 0..=3 x clones x builder fill levels (+ destructure! of token arrays/tuples): destructor calls counted");
     ctx.exhaustive_part("N in 0..=6 x {u32,String,Tracked} value checks of map!/map_!/from_fn!/from_fn_! (all closure forms); map_!/from_fn_! with the closure panicking at every element");
